@@ -3,11 +3,23 @@ import PsutilModel.Model.C10
 import PsutilModel.Generated.C10
 namespace Psutil.C10
 
+/-- does `disk_io_counters(perdisk=True)` keep its own nowrap history? -/
+def genFormsSeparate : Bool :=
+  decide (Gen.C10.diskPerName ≠ Gen.C10.diskName) && decide (Gen.C10.diskPerName ≠ Gen.C10.netName)
+
 /-- configuration of the model as extracted from the current source -/
 def cfg : Cfg :=
   { emptyFeedsWrap := Gen.C10.emptyFeedsWrap
     strictLess := Gen.C10.wrapIsStrictLess
     namesDistinct := decide (Gen.C10.diskName ≠ Gen.C10.netName)
-      && Gen.C10.diskClearName == Gen.C10.diskName && Gen.C10.netClearName == Gen.C10.netName }
+      && Gen.C10.diskClearName == Gen.C10.diskName && Gen.C10.netClearName == Gen.C10.netName
+      -- no cache_clear reaches into the other function's history, or clears a name nobody uses
+      && Gen.C10.netClearNames == [Gen.C10.netName]
+      && Gen.C10.diskClearNames.all (fun n => n == Gen.C10.diskName || n == Gen.C10.diskPerName)
+    formsSeparate := genFormsSeparate
+    clearPer := genFormsSeparate && Gen.C10.diskClearNames.contains Gen.C10.diskPerName
+    linuxFilter := Gen.C10.linuxSkipsPartitions
+    lockedRun := Gen.C10.runUnderLock
+    lockedClear := Gen.C10.clearUnderLock }
 
 end Psutil.C10
